@@ -1363,7 +1363,8 @@ func ruleC12DecidedByEqual(c *Ctx) {
 	var header *ssa.BasicBlock
 	for d := bucketUpdate.Block(); d != nil && header == nil; d = d.Idom() {
 		for _, pr := range d.Preds {
-			if d.Dominates(pr) && (pr == bucketUpdate.Block() || core.Reachable(bucketUpdate.Block(), pr, nil)) {
+			// (the loop the recording belongs to: the recording reaches the back edge without leaving through the header)
+			if d.Dominates(pr) && (pr == bucketUpdate.Block() || d == bucketUpdate.Block() || core.Reachable(bucketUpdate.Block(), pr, map[*ssa.BasicBlock]bool{d: true})) {
 				header = d
 			}
 		}
